@@ -316,9 +316,11 @@ func (n *networkTopology) replicaMap(tokenRing *tokenRing) tokenRingReplicas {
 		replicaRing = append(replicaRing, hostTokens{th.token, replicas})
 	}
 
+	// count the datacenters of the ring that hold replicas: the keyspace can be
+	// replicated to datacenters the ring does not (yet) contain
 	dcsWithReplicas := 0
-	for _, dc := range n.dcs {
-		if dc > 0 {
+	for dc, rf := range n.dcs {
+		if _, ok := dcRacks[dc]; ok && rf > 0 {
 			dcsWithReplicas++
 		}
 	}
